@@ -316,3 +316,9 @@ for _pid in ("C04", "C08", "C16", "C18"):
 PLANS["C19"].proofs += [("contracts.handlers", n) for n in _H.ALL
                         if getattr(_H, n).handler in ("allclose", "isclose", "array_equal", "array_equiv")]
 PLANS["C11"].proofs += [("contracts.registry", "ArraySetstate")]        # unpickling restores exactly the pickled table
+
+# in_base / in_cgs / in_mks (copying base-unit route): quantity preserved, zero points included (C03, C10),
+# dtype rule (C17), fresh memory and input untouched (C18)
+_INBASE = [("contracts.routes", "InBase"), ("contracts.routes", "InBaseQuantity"), ("contracts.routes", "ConvertToBase")]
+for _pid in ("C03", "C10", "C17", "C18"):
+    PLANS[_pid].proofs += _INBASE
